@@ -1684,5 +1684,69 @@ class MoistPrimitiveEquationsWithCloudMoisture(MoistPrimitiveEquations):
       )
     return aux_state.tracers['specific_cloud_ice_water_content']
 
+  def _reference_cloud_loading_terms(
+      self, state: State, aux_state: DiagnosticState
+  ) -> tuple[Array, Array]:
+    """Nodal curl and divergence of `-R * T_ref * (q_l + q_i) * ∇log(ps)`.
+
+    `_virtual_temperature` applies the cloud loading to the temperature
+    variation only. The matching reference temperature part is added here, the
+    same way `*_tendency_due_to_humidity` add the `T_ref * q` part of the
+    humidity contribution, so that the total tendency does not depend on the
+    choice of the reference temperature.
+    """
+    grid = self.coords.horizontal
+    condensate = self._get_cloud_water(state) + self._get_cloud_ice(state)
+    nodal_condensate = self._get_cloud_water(aux_state) + self._get_cloud_ice(
+        aux_state
+    )
+    nodal_cos_lat_grad_c = grid.to_nodal(
+        grid.cos_lat_grad(condensate, clip=False)
+    )
+    nodal_cos_lat_grad_log_sp = aux_state.cos_lat_grad_log_sp
+    coefficient = -self.T_ref * self.physics_specs.R
+    nodal_curl_term = (
+        coefficient
+        * grid.sec2_lat
+        * (
+            nodal_cos_lat_grad_log_sp[0] * nodal_cos_lat_grad_c[1]
+            - nodal_cos_lat_grad_log_sp[1] * nodal_cos_lat_grad_c[0]
+        )
+    )
+    nodal_laplacian_lsp = grid.to_nodal(
+        grid.laplacian(state.log_surface_pressure)
+    )
+    nodal_div_term = coefficient * (
+        nodal_condensate * nodal_laplacian_lsp
+        + grid.sec2_lat
+        * (
+            nodal_cos_lat_grad_c[0] * nodal_cos_lat_grad_log_sp[0]
+            + nodal_cos_lat_grad_c[1] * nodal_cos_lat_grad_log_sp[1]
+        )
+    )
+    return nodal_curl_term, nodal_div_term
+
+  @jax.named_call
+  def divergence_tendency_due_to_humidity(
+      self,
+      state: State,
+      aux_state: DiagnosticState,
+  ) -> Array:
+    _, nodal_div_term = self._reference_cloud_loading_terms(state, aux_state)
+    return super().divergence_tendency_due_to_humidity(
+        state, aux_state
+    ) - self.coords.horizontal.to_modal(nodal_div_term)
+
+  @jax.named_call
+  def vorticity_tendency_due_to_humidity(
+      self,
+      state: State,
+      aux_state: DiagnosticState,
+  ) -> Array:
+    nodal_curl_term, _ = self._reference_cloud_loading_terms(state, aux_state)
+    return super().vorticity_tendency_due_to_humidity(
+        state, aux_state
+    ) + self.coords.horizontal.to_modal(nodal_curl_term)
+
 
 # pylint: enable=invalid-name
